@@ -215,5 +215,7 @@ def run(ctx) -> None:
     ctx.floor('R-TRUTHY', n, 6)
     m = shared.r_argorder(ctx, resolver, prog.functions(), ('lower', 'upper'))
     ctx.floor('R-ARGORDER', m, 8)
+    k = shared.r_passthrough(ctx, resolver, prog.functions(), ('lower', 'upper'))
+    ctx.floor('R-PASSTHROUGH', k, 5)
     refusal(ctx)
     default_lower(ctx)
